@@ -3,6 +3,7 @@ pub mod c08;
 pub mod c09;
 pub mod c10;
 pub mod c14;
+pub mod c15;
 pub mod c19;
 pub mod c20;
 pub mod scen;
@@ -22,6 +23,7 @@ pub fn run(ctx: &Ctx) -> i32 {
         "C09" => return c09::run(ctx),
         "C10" => return c10::run(ctx),
         "C14" => return c14::run(ctx),
+        "C15" => return c15::run(ctx),
         "C19" => return c19::run(ctx),
         "C20" => return c20::run(ctx),
         _ => {}
@@ -52,6 +54,10 @@ pub fn replay(_ctx: &Ctx, kind: &str, input: &Value) -> Result<Vec<Violation>, S
         "c08-input" => {
             let inp: c08::Input = serde_json::from_value(input.clone()).map_err(|e| e.to_string())?;
             Ok(c08::replay(&inp))
+        }
+        "c15-input" => {
+            let inp: c15::Input = serde_json::from_value(input.clone()).map_err(|e| e.to_string())?;
+            Ok(c15::replay(&inp))
         }
         "c19-cell" => {
             let cell: c19::Cell = serde_json::from_value(input.clone()).map_err(|e| e.to_string())?;
